@@ -55,9 +55,25 @@ pub fn main_campaign() -> SimCampaign {
     }
 }
 
+/// Known finding R8: UNSUBSCRIBE is answered with one UNSUBACK per removed filter and with
+/// none at all when no filter was removed (unknown filter, or a filter of a resumed session)
+pub fn probe_r8() -> SimCampaign {
+    let mut c = main_campaign();
+    c.name = "probe_r8_unsubscribe_shapes";
+    c.gen.w_unsubscribe = 25;
+    c.gen.w_burst = 0;
+    c.gen.max_clients = 3;
+    c.flags.avoid.unsub_shape = false;
+    c.quick = 300;
+    c.thorough = 3000;
+    c.nontrivial = |s, _| if s.acks_received > 0 { Some("unsub".into()) } else { None };
+    c.probes = vec!["acks:wrong_or_out_of_order", "acks:missing_at_idle", "acks:unsolicited"];
+    c
+}
+
 pub fn plan(_tier: Tier) -> Plan {
     Plan {
-        campaigns: vec![Box::new(main_campaign())],
+        campaigns: vec![Box::new(main_campaign()), Box::new(probe_r8())],
         enumerators: vec![],
         rule: "Histories biased to request packets (QoS 1/2 publishes incl. bursts, PUBREL in publish order, SUBSCRIBE 1-3 filters, UNSUBSCRIBE, PINGREQ, several packets per notification) from 2-4 clients against the real router. Oracle: per client the sequence of DeviceAck notifications equals the model's owed-ack list (kind, packet id, SUBACK codes, request order) as a prefix at every drain and completely at every idle point; QoS 2 publishes enter the acceptance log (and the delivery oracle of C01) only at their release. Non-trivial: >=1 request processed while its connection was paused as busy or inflight-full and >=1 QoS 2 publish flow completed (PUBCOMP received); distinct by history hash.".into(),
         assumptions: vec![
